@@ -26,7 +26,7 @@ type taintInfo struct {
 }
 
 var taintSanitizers = map[string]bool{
-	"encoding/json.Marshal": true, "encoding/json.MarshalIndent": true, "strconv.Quote": true, "strconv.AppendQuote": true,
+	"encoding/json.Marshal": true, "encoding/json.MarshalIndent": true,
 	"openapi/internal.ToJSONString": true, "strconv.Itoa": true,
 	// encodes string values with ToJSONString and copies number/boolean/null literals verbatim (shape checked by rule C08.escape:jsonValue)
 	"(openapi/internal/jsoac.Example).jsonValue": true, "strconv.FormatUint": true, "strconv.FormatInt": true,
